@@ -629,6 +629,15 @@ class Model:
                             ser_lit = json.loads(m.group(1))
             if de_lit is None or ser_lit is None:
                 raise Untranslatable(key, "filter literals not found")
+            # which element type does the hand-written visit_seq parse?
+            dimp = self.manual_impl("Deserialize", name, it["module"])
+            dbody = " ".join(f.get("body") or "" for f in dimp["items"] if f["kind"] == "fn")
+            m = re.search(r"next_element :: < ([^>]+) >", dbody)
+            if not m or m.group(1).strip() != "PublicKeyCredentialParameters":
+                raise Untranslatable(key, "visit_seq does not read PublicKeyCredentialParameters entries: "
+                                          + (m.group(1) if m else "no next_element::<T>() found"))
+            if "push (el) . ok ()" not in dbody or "continue" not in dbody:
+                raise Untranslatable(key, "visit_seq body is not the filter-and-push(..).ok() loop the model describes")
             elem_key = None
             for c in self.by_name.get("PublicKeyCredentialParameters", []):
                 if c["kind"] == "struct":
@@ -647,6 +656,11 @@ class Model:
                     et = self.ty_of(f["ty"]["args"][0], it["module"], features)
             if cap is None:
                 raise Untranslatable(key, "known_formats field not found")
+            dimp = self.manual_impl("Deserialize", name, it["module"])
+            dbody = " ".join(f.get("body") or "" for f in dimp["items"] if f["kind"] == "fn")
+            if not re.search(r"next_element :: < & str >", dbody) or "push (format) . ok ()" not in dbody \
+                    or "unknown = true" not in dbody:
+                raise Untranslatable(key, "visit_seq body is not the known/unknown format loop the model describes")
             ety = self.named_ty(et["named"], features)
             return {"leaf": "attFmtPref", "de": ety["de"], "cap": cap, "elem": et["named"],
                     "caps": {"ser": False, "de": True}}
@@ -677,6 +691,7 @@ class Model:
                 if c["kind"] == "struct" and c["module"] == it["module"]:
                     builder = [f["name"] for f, _ in self.fields_of(c, features)]
             out[key]["rust"] = {
+                "pub": it.get("vis", "pub").strip() == "pub",
                 "non_exhaustive": any(a["p"] == "non_exhaustive" for a in attrs),
                 "default": has_default,
                 "builder": builder,
